@@ -93,7 +93,9 @@ class VerifyMixin(object):
                 idx = [i for i, s0 in enumerate(fn.body) if _match(pat, s0)]
                 if len(idx) != 1:
                     raise OutsideSubset("from_stmt %r matches %d top-level statements of %s" % (c.from_stmt, len(idx), c.qualname))
-                body = fn.body[idx[0]:]
+                body = fn.body[idx[0] + (1 if c.from_after else 0):]
+                if not body:
+                    raise OutsideSubset("from_stmt %r is the last statement of %s" % (c.from_stmt, c.qualname))
                 if c.to_stmt is not None:
                     pat2 = ast.parse(c.to_stmt).body[0]
                     end = [i for i, s0 in enumerate(body) if i > 0 and _match(pat2, s0)]
@@ -215,9 +217,11 @@ class VerifyMixin(object):
                 continue
             if key in old.heap and arr is old.heap[key]:
                 continue
-            if key not in old.heap:
+            # a field first touched inside the body is not in the entry snapshot: its entry value is the initial heap constant
+            before = old.heap[key] if key in old.heap else z3.Const("H_%s%s" % (key, CTX.tag), arr.sort())
+            if arr.eq(before):
                 continue
-            self.oblige(st, kind, key, "field %s unchanged" % key, arr == old.heap[key], None)
+            self.oblige(st, kind, key, "field %s unchanged" % key, arr == before, None)
         for name, v in st.glob.items():
             if name in allowed:
                 continue
@@ -247,8 +251,9 @@ class VerifyMixin(object):
                             z3.Implies(self.exc_isinstance(exc, ename), self.spec_bool(text, st)), None)
         if c.raise_frame == "unchanged":
             for key, arr in st.heap.items():
-                if key in old.heap and arr is not old.heap[key]:
-                    self.oblige(st, "frame-raise", key, "field %s unchanged on raise" % key, arr == old.heap[key], None)
+                before = old.heap[key] if key in old.heap else z3.Const("H_%s%s" % (key, CTX.tag), arr.sort())
+                if arr is not before and not arr.eq(before):
+                    self.oblige(st, "frame-raise", key, "field %s unchanged on raise" % key, arr == before, None)
         else:
             self.check_frame(c, st, old, "frame-raise")
 
